@@ -1134,6 +1134,20 @@ private:
       {
         try { c.listenerReady->set_value(false); } catch (...) {}
       }
+      // A Connect pushed after the process() above (e.g. a reconnect issued from a
+      // close callback of this very drain, or by another thread) was already
+      // answered ok(sid) by connect(): the id must still receive its one terminal
+      // close notification instead of being dropped silently with the queue.
+      if (c.t == Cmd::Connect)
+      {
+        decltype(_cbs.onClose) closeCb;
+        { std::lock_guard<std::mutex> g(_cbMutex); closeCb = _cbs.onClose; }
+        if (closeCb)
+        {
+          closeCb(c.c.sid, TransportErrorInfo{TransportError::ShuttingDown,
+                                              "connect: transport shutting down", 0, 0});
+        }
+      }
     }
     if (_epollFd >= 0)
     {
